@@ -128,6 +128,7 @@ class BufferMachine(Machine):
         self.faults: dict[str, int] = {}
         self.sync_log: list = []
         self.l1_elbytes = 4
+        self.global_ops_read = False
         self.static_addrs: dict = {}
         self.taint = False  # reference runs of the static-allocation variant: values computed from uninitialised data are 'undef'
         self.step_limit = 400_000
@@ -447,6 +448,15 @@ def _testop(m: BufferMachine, op, vals, core):
     for o in op.operands:
         v = m.get(vals, o)
         ops.append(v.descr() if isinstance(v, View) else v)
+        if isinstance(v, View) and m.global_ops_read:
+            # an op that every core executes and that looks into the buffer it is given (a load, a debug print, a call)
+            read = []
+            for i in v.indices():
+                m.access(core, "r", v.buf.name, i, f"test.op#{tag}")
+                read.append(m.mem[(v.buf.name, i)])
+            m.oplog.append((core.id, ("global", tag), (v.descr(),), tuple(read)))
+            if not m.seq:
+                yield ("mem",)
     core.hist.append(("test", tag, tuple(ops)))
     for i, r in enumerate(op.results):
         vals[r] = 0
